@@ -12,8 +12,10 @@ mod enc_link;
 mod enc_net;
 mod ext;
 mod frag;
+mod guard;
 mod io;
 mod opt;
+mod rd;
 mod set;
 mod view;
 mod util;
